@@ -2425,7 +2425,8 @@ class Model:
         rhs_by_time = {}
         for time, variables in args.iterrows():
             rhs_by_time[time] = self._get_right_hand_side(
-                args=variables.to_dict(),
+                # the args table has no time column, computed coefficients may need it
+                args=variables.to_dict() | {"time": time},
                 var_names=var_names,
                 cache=cache,
             )
